@@ -158,6 +158,9 @@ def synthetic(rng, wild=False):
     # indicators, leap records and shared abbreviation suffixes must not matter
     Z.append(('isstd-isut-leaps', W([ts(1995, 4, 2, 7), ts(1995, 10, 29, 6)], [1, 0], [(-18000, False, 'EST'), (-14400, True, 'EEST')],
                                     [1, 1], [1, 0], [(ts(1972, 7, 1), 1), (ts(1973, 1, 1), 2)])))
+    # the two indicator arrays are independent of each other: either may be absent
+    Z.append(('isut-only', W([ts(1995, 4, 2, 7), ts(1995, 10, 29, 6)], [1, 0], [(-18000, False, 'EST'), (-14400, True, 'EDT')], None, [0, 0])))
+    Z.append(('isstd-only', W([ts(1995, 4, 2, 7), ts(1995, 10, 29, 6)], [1, 0], [(-18000, False, 'EST'), (-14400, True, 'EDT')], [1, 0], None)))
     # type 0 is DST: "before" must be the first *standard* type
     Z.append(('dst-type-first', W([ts(1990, 4, 1, 7), ts(1990, 10, 28, 6), ts(1991, 4, 7, 7)], [0, 1, 0],
                                   [(-14400, True, 'EDT'), (-18000, False, 'EST')])))
